@@ -321,9 +321,14 @@ def r12d(ctx):
         mi = analyse_masker(repo, m)
         if mi.buffer_only is not None:
             continue
-        if mi.error or not mi.blend_ok:
-            raise AnalysisError(f'R12d: theta of {m.name} not modelled: '
-                                f'{mi.error or mi.blend_msg}')
+        if mi.error:
+            raise AnalysisError(f'R12d: theta of {m.name} not modelled: {mi.error}')
+        if not mi.blend_ok:
+            n += 1
+            ctx.ob('R12d', f'{m.name}.theta non-decreasing in |p|', False,
+                   f'theta is not [C @] (|p|*(1-ka)+ka): {mi.blend_msg} — monotonicity in |p| is '
+                   f'not established', where(mi.theta_fn))
+            continue
         n += 1
         # blend = A*(1-K)+K with K in {0,1}: coefficient of A is (1-K) >= 0  => non-decreasing
         ka_ok = mi.ka is not None
